@@ -1192,6 +1192,12 @@ impl Sess {
             Op::Q(_) | Op::Q2(..) | Op::Q0 | Op::Acc(_) | Op::QFld(..) | Op::QOnTs(..) | Op::QInt(..) | Op::NewInput(_) | Op::QK(..) => {
                 request_raw(&self.db, op)
             }
+            Op::QClone(n) => {
+                let h = self.db.clone();
+                let out = request_raw(&h, &Op::Q(*n));
+                drop(h);
+                out
+            }
             Op::Prefill(n) => {
                 let h = self.db.clone();
                 for i in 0..*n {
